@@ -387,7 +387,7 @@ def main(argv=None):
     if not args.no_evidence and not args.sub:
         write_evidence(prop, mod, total, args.tier, seed, wall, len(buckets))
     print("%s tier=%s seed=%d evaluations=%d distinct_nontrivial=%d known=%s skipped=%d violations=%d wall=%.1fs" % (
-        prop, args.tier, seed, total.evaluations, len(total.nontrivial), dict(total.known),
+        prop, args.tier, seed, total.evaluations, len(total.nontrivial) + total.nontrivial_extra, dict(total.known),
         sum(total.skipped.values()), len(buckets), wall))
     return exit_code
 
@@ -397,7 +397,7 @@ def write_evidence(prop, mod, total, tier, seed, wall, nviol):
     samples = [{"class": k, "case": v} for k, v in sorted(total.samples.items())][:40]
     cov = {
         "evaluations": int(total.evaluations),
-        "distinct_nontrivial": int(len(total.nontrivial)),
+        "distinct_nontrivial": int(len(total.nontrivial) + total.nontrivial_extra),
         "rule": getattr(mod, "RULE", ""),
         "samples": samples,
         "class_histogram": dict(sorted(total.classes.items())),
